@@ -232,9 +232,22 @@ class PrivModel(histmc.HistModel):
                 inited = (pname in T.properties) if pname else ("init:lines:%s" % n in ns.get("_hist", ()) or _lines_inited(T))
                 if inited:
                     gs.append(g)
-            out.append((n, tuple(c09.digest_table(pt, T, order, groups=gs)) if gs else ()))
+            out.append((n, (tuple(c09.digest_table(pt, T, order, groups=gs, calcs=False)) if gs else ())
+                        + (("base", base_digest(T)),)))
         out.append(("alias", tuple(alias_report([("public", pt.elements)] + live))))
         return tuple(out)
+
+
+def base_digest(T):
+    """Digest of what every table serves from the start: names, symbols, charge states, masses,
+    abundances, densities, isotope lists (customisation of these is not among the events)."""
+    h = hashlib.sha1()
+    for el in T:
+        h.update(repr((el.number, el.symbol, el.name, tuple(el.ions), c09.norm(el.mass), c09.norm(el._mass_unc),
+                       c09.norm(el.density), tuple(el.isotopes))).encode())
+        for iso in el:
+            h.update(repr((iso.isotope, c09.norm(iso.mass), c09.norm(iso.abundance), tuple(iso.ions))).encode())
+    return h.hexdigest()[:16]
 
 
 def _lines_inited(T):
@@ -315,30 +328,41 @@ def canonical(model):
             if e.name.startswith("pub:"):
                 obs[e.name] = histmc.in_fork(lambda e=e: model.observe(e, ns))
         pub = [histmc.in_fork(lambda o=o: tuple(c09.digest_table(ns["pt"], ns["pt"].elements, o))) for o in (0, 1)]
-        # canonical private values: a table created after the public table is fully loaded
+        # what a private table must serve: the values of the public table (atoms only, no public calculators)
+        def public_atoms():
+            pt = ns["pt"]
+            clean = {}
+            for o in (0, 1):
+                clean[o] = dict(c09.digest_table(pt, pt.elements, o, calcs=False))
+                clean[o]["base"] = base_digest(pt.elements)
+            return clean
+        clean = histmc.in_fork(public_atoms)
+        # canonical mutated values: a table created after the public table is fully loaded, one group at a time
         def priv():
             ev_new(ns, "Tc")
             T = ns["Tc"]
-            clean, mutated = {}, {}
+            mutated, problems = {0: {}, 1: {}}, []
             for g in GROUPS:
-                exec(INIT_CODE[g] % "T", dict(T=T))
-            for o in (0, 1):
-                clean[o] = dict(c09.digest_table(ns["pt"], T, o))
-            for g in GROUPS:
-                exec(MUT_CODE[g] % dict(T="T"), dict(T=T))
-            for o in (0, 1):
-                mutated[o] = dict(c09.digest_table(ns["pt"], T, o))
-            return clean, mutated
-        clean, mutated = histmc.in_fork(priv)
-        return obs, pub, clean, mutated
+                try:
+                    exec(INIT_CODE[g] % "T", dict(T=T))
+                    exec(MUT_CODE[g] % dict(T="T"), dict(T=T))
+                    for o in (0, 1):
+                        mutated[o][g] = dict(c09.digest_table(ns["pt"], T, o, groups=[g], calcs=False))[g]
+                except Exception as e:
+                    problems.append((g, "%s: %s" % (type(e).__name__, e)))
+                    for o in (0, 1):
+                        mutated[o][g] = None
+            return mutated, problems
+        mutated, problems = histmc.in_fork(priv)
+        return obs, pub, clean, mutated, problems
     return histmc.in_fork(work)
 
 
 class Oracle(object):
     def __init__(self, model, acc, can):
         self.model, self.acc = model, acc
-        self.can_obs, self.can_pub, self.can_clean, self.can_mut = can
-        self.evs = dict((e.name, e) for e in model.events())
+        self.can_obs, self.can_pub, self.can_clean, self.can_mut, self.can_problems = can
+        self.evs = dict((e.name, e) for e in list(PrivModel(GROUPS).events()) + list(model.events()))
 
     def expected_obs(self, name, hist):
         p = name.split(":")
@@ -454,6 +478,12 @@ def explore_sub(args):
     acc = Acc()
     can = canonical(PrivModel(GROUPS))
     oracle = Oracle(model, acc, can)
+    for g, msg in can[4]:
+        if g in groups:
+            hist = ["pub:get:%s" % x for x in GROUPS] + ["new:T1", "init:%s:T1" % g, "mut:%s:T1" % g]
+            acc.violation("private-table-after-public-load:%s:raises" % g, dict(history=hist, event=None, group=g),
+                          expected="a private table initialised after the public table was loaded can be initialised "
+                                   "and customised", observed=msg, standalone=oracle.snippet(hist))
     ex = histmc.Explorer(model, jobs).run(depth=depth, on_state=oracle, probe_levels=None)
     if ex.nondeterminism:
         raise MachineryError("replay reached a different key: %r" % ex.nondeterminism[:2])
